@@ -102,7 +102,7 @@ def run(tier, seed):
     # SEARCH
     cases = []
     pats = (rng.sample(strings, 120) if tier == 'quick' else rng.sample(strings, 1500)) + ['a*b', '~*', '~~', 'b?', 'B', 'A', '*', '?', '', '~', 'a~',
-                                                                                              '~**c', '~**', '*~*', '**', 'a**b', '~?*', '*~?', '~~*', '~*~*', '~~~*', '***c', '~*?']
+                                                                                              '~b', '~x', 'a~b', '~**c', '~**', '*~*', '**', 'a**b', '~?*', '*~?', '~~*', '~*~*', '~~~*', '***c', '~*?']
     withins = (rng.sample(strings, 40) if tier == 'quick' else rng.sample(strings, 300)) + ['abab', 'aBAb*', 'xa?b', 'a~b', 'ABC abc', '', 'a*bc', 'a**c', '*c', 'a*b', '?*', '~*c', 'a~*']
     for f in pats:
         for t in withins:
@@ -171,6 +171,9 @@ def end_to_end(chk, tier):
             ('=CONCATENATE(A%d,B%d,C%d)' % (row, row, row), lambda: t + u + str(i1)),
             ('=CONCATENATE(B%d;"-";A%d)' % (row, row), lambda: u + '-' + t),
             ('=CONCATENATE(A%d,0,"|")' % row, lambda: t + '0|'),
+            ('=LEFT(Z%d,2)' % row, lambda: inst._left(type(inst).EmptyCell(), 2)),          # a blank cell as the text argument: what the helper says for a blank
+            ('=LEFT(MID(A%d,99,2),1)' % row, lambda: inst._left(inst._mid(t, 99, 2), 1)),
+            ('=RIGHT(MID(A%d,99,2))' % row, lambda: inst._right(inst._mid(t, 99, 2), None)),
             ('=CONCATENATE(A%d,1234.5678,"|",0.000012345)' % row, lambda: t + '1234.5678|1.2345e-05'),
             ('=CONCATENATE(C%d,"|",A%d)' % (row, row), lambda: str(i1) + '|' + t),
             ('=SEARCH(B%d,A%d)' % (row, row), lambda: inst._search(u, t, None)),
